@@ -73,12 +73,13 @@ def proof_obligations(prop):
     t0 = time.time()
     gen_err = None
     try:
-        import gen_fragments, gen_guards, gen_skel, gen_emit, gen_loops, gen_loader_guards, gen_param_guards, gen_handler_guards
+        import gen_fragments, gen_guards, gen_skel, gen_emit, gen_loops, gen_optimize, gen_loader_guards, gen_param_guards, gen_handler_guards
         gen_info = gen_fragments.regenerate()
         gen_info["guards"] = gen_guards.regenerate()     # scan guards translated from the current sources
         gen_info["skeleton"] = gen_skel.regenerate()     # control skeleton of the scan loops, from the current sources
         gen_info["emit"] = gen_emit.regenerate()         # step-emission loop of reverse_journey.cpp, from the current source
         gen_info["loops"] = gen_loops.regenerate()       # journey rebuild and alternativesRouting, from the current sources
+        gen_info["optimize"] = gen_optimize.regenerate() # optimizeJourney: detection, rewrite blocks, pass, loop, from the current source
         gen_info["loader_guards"] = gen_loader_guards.regenerate()   # skip rules of the cache loaders, from the current sources
         gen_info["handler_guards"] = gen_handler_guards.regenerate() # /updateCache, status -> answer tables, loadAllData / updateX, /v2 skeleton
         gen_info["param_guards"] = gen_param_guards.regenerate()     # parameter factories (keys, normalisations, defaults, test order), from the current sources
